@@ -26,7 +26,7 @@ WHAT IS PROVED (each an instance of one clause for executable models of the code
                       not through Props/C13, Props/C18, so that those properties' own source obligations
                       (`decide`s over their generated tables) do not gate this file.
 * source obligations — `all_sites_initialised`, `all_alloc_sites_initialised`,
-                      `all_accumulators_initialised`: `decide`d over tables regenerated from the source on
+                      `all_accumulators_initialised`, `all_accumulators_single_writer`: `decide`d over tables regenerated from the source on
                       every run; they tie the heap clause to what the code contains today.
 CORRESPONDENCE-ONLY (no model, sampled by harness/props/c19.py): "no routine modifies an array passed to
 it" (argument byte snapshots; the models are pure functions, so the second conjunct of `ArgumentsOnly`
@@ -183,6 +183,12 @@ theorem all_alloc_sites_initialised : ∀ s ∈ allocSites, s.init ≠ InitKind.
 defined content first: zeroed over the same full iteration space and not under a condition, allocated by
 `np.zeros`, or bound to a computed array -/
 theorem all_accumulators_initialised : ∀ s ∈ accumSites, s.init ≠ AccumInit.uninitialised := by decide
+
+/-- thread clause, source side: every accumulation inside a parallel region has ONE writer per cell — each
+`prange` variable enclosing it is a component of the accumulated index, the first one (the position the
+C13 / C18 interleaving models assume: `out[i]`, `jc[a_row, …]`); no accumulation sits under a `prange` over a
+variable absent from its index (interchanged loops, a `prange` moved to the frame loop) -/
+theorem all_accumulators_single_writer : ∀ s ∈ accumSites, s.owner = Owner.serial ∨ s.owner = Owner.ownedAt0 := by decide
 
 /-! ### (i') `shannon_entropy` on top of the masked log, NaN-propagating values -/
 
